@@ -40,6 +40,8 @@ pub struct Facts {
     /// named fault kinds that fired in this case
     pub faults: BTreeMap<&'static str, u64>,
     pub answers_compared: u64,
+    /// numeric observations; the evidence reports the maximum of each over the run
+    pub metrics: BTreeMap<&'static str, f64>,
 }
 
 pub struct CaseResult {
@@ -124,6 +126,7 @@ struct Agg {
     quanta: u64,
     work: u64,
     answers_compared: u64,
+    metrics_max: BTreeMap<String, f64>,
     oracles: BTreeMap<String, u64>,
     samples: Vec<Value>,
     violations: Vec<(u64, Case, String, String)>,
@@ -161,6 +164,12 @@ impl Agg {
             *self.faults.entry(k.to_string()).or_insert(0) += v;
         }
         self.answers_compared += res.facts.answers_compared;
+        for (k, v) in res.facts.metrics.iter() {
+            let e = self.metrics_max.entry(k.to_string()).or_insert(f64::MIN);
+            if *v > *e {
+                *e = *v;
+            }
+        }
         self.traces.insert(res.facts.trace_hash);
         match &res.verdict {
             Verdict::Pass => {
@@ -216,6 +225,12 @@ impl Agg {
         self.quanta += o.quanta;
         self.work += o.work;
         self.answers_compared += o.answers_compared;
+        for (k, v) in o.metrics_max {
+            let e = self.metrics_max.entry(k).or_insert(f64::MIN);
+            if v > *e {
+                *e = v;
+            }
+        }
         for (k, v) in o.oracles {
             *self.oracles.entry(k).or_insert(0) += v;
         }
@@ -437,6 +452,7 @@ pub fn explore(check: &'static dyn Check, seed: u64, tier: Tier, verif_dir: &str
             "distinct_traces": agg.traces.len(),
             "cases_by_oracle": agg.oracles,
             "answers_compared": agg.answers_compared,
+            "metrics_max": agg.metrics_max,
             "planned_cases": total,
             "stopped_early_on_wall_clock": stopped_early,
             "runs_per_hour": if wall > 0.0 { (agg.evaluations as f64 / wall * 3600.0) as u64 } else { 0 },
